@@ -490,11 +490,11 @@ ARTEFACTS = {
     "g_event_ign": ["graph", "event_ign", "events", "5000", "{out}", "{alpha}"],
     "g_kb2_ign_events": ["graph", "kb2_ign", "kbevents", "4000", "{out}", "{alpha}"],
     "g_kb2_events": ["graph", "kb2", "kbevents", "4000", "{out}", "{alpha}"],
-    "g_kb2_bits": ["graph", "kb2:lean", "bits", "200000", "{out}", "{alpha}"],
-    "g_kb1_bits": ["graph", "kb1:lean", "bits", "200000", "{out}", "{alpha}"],
+    "g_kb2_bits": ["graph", "kb2:lean", "bits", "60000", "{out}", "{alpha}"],
+    "g_kb1_bits": ["graph", "kb1:lean", "bits", "60000", "{out}", "{alpha}"],
     "g_kb2_mixedq": ["graph", "kb2:lean", "mixedq", "250000", "{out}", "{alpha}"],
     "g_kb1_mixedq": ["graph", "kb1:lean", "mixedq", "150000", "{out}", "{alpha}"],
-    "g_kb2_mixed": ["graph", "kb2:lean", "mixed", "800000", "{out}", "{alpha}"],
+    "g_kb2_mixed": ["graph", "kb2:lean", "mixed", "300000", "{out}", "{alpha}"],
     # recorded calls: the repository's own test/example scenarios followed by seeded random interleavings
     "tr_noise_kb2": ["trace", "full", "kb2", "{seed}", "20", "2000", os.path.join(SPEC, "scenarios_kb2.json"), "{out}"],
     "tr_noise_kb1": ["trace", "full", "kb1", "{seed}", "20", "2000", os.path.join(SPEC, "scenarios_kb1.json"), "{out}"],
